@@ -12,6 +12,7 @@ const ruleText = "A case is a history of syncs of one publisher on one fresh Sub
 	"single: every fault kind (500, 404, 403, closed connection, TCP reset / stream reset, corrupt body, truncated body, stalled header, stalled body, context cancellation) at EVERY request index of the sync, for heads 1..4, explicit and announce-triggered, segment depth off/1/2, also with a stop position inside the chain and a pre-stored block; followed by a fault-free retry of the same head (and for a subset a third sync in the other mode). " +
 	"pair-same / pair-seq: two faults in one sync, or in two consecutive syncs, then the retry (thorough: all pairs for heads <= 3, pairs that include a stalled response 1 in 12; quick: a seeded sample). hook: FailSync at every hook call index. disc: the discovery request fails. addrchange: the address list changes between syncs (syncer re-creation, sorted-address quirk). random: seeded histories of 3..6 syncs mixing everything. " +
 	"queued: a second, newer head is announced while the stalled sync of the first runs (it is the pending message when that sync fails), the script runs on into the queued sync, then both heads are announced again on a healthy publisher. " +
+	"hook: FailSync at every hook call index, with the harness's hook and with the library's own MakeGeneralBlockHook (callback failing at call j), segment depth off/1/2/3. " +
 	"cancel: the caller's context cancelled at every position of the walk of an explicit sync: before the call, inside request k (single family), between the answer to request k and the next request, from the block hook at every call j with segment depth off/1/2/3, also with a pre-stored block and a stop inside the chain. trusted: TrustedStorage link system with bodies corrupted so that they still decode (and other body faults) at every request. " +
 	"opts: Subscriber options around failures: MaxAsyncConcurrency(1|2) with as many and more failed announce-triggered syncs (request faults, hook failures) as there are slots, then healthy announcements (each must be processed) and an explicit sync; no BlockHook; StrictAdsSelector(false); announce.WithFilterIPs (the sync client cannot be made). " +
 	"both: fault-free explicit syncs (heads 1..4, every latest-sync position, every pre-stored subset, segment off/1/2/3) whose observed request log, hook order, store and latest-sync are checked against C04's model AND C01's sync_ad_chain in one Coq checker (both_case_ok). " +
@@ -166,6 +167,48 @@ func generate(c *vlib.Ctx) []*Hist {
 						a.HookFail = k
 						add(&Hist{Fam: "hook", Kind: wc.kind, Alive: wc.alive, Cfg: fd.Config{Seg: seg}, Retry: 1, Class: "hookfail",
 							Ops: []fd.Op{a, mkop(mode, wc.addrs, head, nil), mkop(other(mode), wc.addrs, head, nil)}})
+					}
+				}
+			}
+		}
+	}
+
+	// ---- the same with the library's OWN hook (dagsync.MakeGeneralBlockHook, whose callback
+	// fails at call j): every j, segments of 1, 2, 3 blocks (a failure on a block that is not
+	// the last of its segment must still fail the sync) and segmentation off
+	for head := 1; head <= 4; head++ {
+		for _, seg := range []int{0, 1, 2, 3} {
+			for _, wc := range worldCfgs {
+				if wc.name != "one" && !(wc.kind == "plain" && wc.name == "two") {
+					continue
+				}
+				for _, mode := range modes {
+					for k := 0; k < head; k++ {
+						a := mkop(mode, wc.addrs, head, nil)
+						a.HookFail = k
+						ops := []fd.Op{a, mkop(mode, wc.addrs, head, nil)}
+						if (k+seg)%2 == 0 {
+							ops = append(ops, mkop(other(mode), wc.addrs, head, nil))
+						}
+						add(&Hist{Fam: "hook", Kind: wc.kind, Alive: wc.alive, Cfg: fd.Config{Seg: seg, GeneralHook: true}, Retry: 1, Class: "generalhook+hookfail", Ops: ops})
+					}
+				}
+			}
+		}
+	}
+	// ... and request faults under the library's hook (it also drives the segment loop)
+	for _, wc := range worldCfgs {
+		if wc.name != "one" {
+			continue
+		}
+		for _, seg := range []int{2, 3} {
+			for _, mode := range modes {
+				head := 4
+				cfg := fd.Config{Seg: seg, GeneralHook: true}
+				for _, f := range []fd.Fault{{K: "status", N: 500}, {K: "transport"}} {
+					for at := 0; at < nreq(wc.kind, mode, head, cfg); at++ {
+						add(&Hist{Fam: "hook", Kind: wc.kind, Alive: wc.alive, Cfg: cfg, Retry: 1, Class: "generalhook+" + f.String(),
+							Ops: []fd.Op{mkop(mode, wc.addrs, head, script(at, f)), mkop(mode, wc.addrs, head, nil)}})
 					}
 				}
 			}
